@@ -882,8 +882,9 @@ def build_item(src: Source, kind, name, opts, emitter: Emitter):
             ds = [d for d in all_ds if d in ("Copy", "Clone")]
             if "Copy" not in ds:
                 ds = []
-            if "Default" in all_ds:
-                ds.append("Default")
+            for extra in opts.get("keep", []):
+                if extra in all_ds:
+                    ds.append(extra)
         if ds:
             emitter.emit("#[derive(" + ", ".join(ds) + ")]")
     gen_start = len(emitter.lines)
@@ -910,7 +911,7 @@ def parse_opts(tokens):
     for t in tokens:
         if "=" in t:
             k, v = t.split("=", 1)
-            if k in ("rules", "derive"):
+            if k in ("rules", "derive", "keep"):
                 opts[k] = [x for x in v.split(",") if x]
             else:
                 opts[k] = v
